@@ -65,7 +65,8 @@ def decChars : Nat → Bits → Option (List Nat × Bits)
       | none => none
       | some (cs, bs'') => some (c :: cs, bs'')
 
-/-- canonical decoding: value and remaining bits, `none` when a needed bit is absent -/
+/-- canonical decoding: value and remaining bits; `none` when a needed bit is absent
+(or a string carries a character outside 7-bit ASCII) -/
 def dec : Ty → Bits → Option (Val × Bits)
   | .uint n, bs => (readN n bs).map fun (w, r) => (.int w, r)
   | .sint n, bs => (readN n bs).map fun (w, r) => (.int (ofTwos n w), r)
@@ -74,7 +75,9 @@ def dec : Ty → Bits → Option (Val × Bits)
   | .enum b, bs => (readN b bs).map fun (w, r) => (.int w, r)
   | .str, bs => match readN 32 bs with
     | none => none
-    | some (n, r) => (decChars n r).map fun (cs, r') => (.str cs, r')
+    | some (n, r) => match decChars n r with
+      | none => none
+      | some (cs, r') => if cs.all (· < 128) then some (.str cs, r') else none
   | .arr t n, bs => decList (dec t) n bs
   | .dyn t, bs => match readN 32 bs with
     | none => none
@@ -169,7 +172,8 @@ theorem dec_enc (t : Ty) : ∀ (v : Val) (rest : Bits), wf t v = true →
     rename_i cs
     rw [readN_natBits 32 _ _ h.1]
     have := decChars_enc cs (by simpa using h.2) rest
-    simp [this]
+    simp only [this]
+    simpa using h.2
   | arr t n ih =>
     intro v rest h
     simp only [wf] at h
